@@ -241,8 +241,15 @@ pub fn run(master: u64, runs: u64, long: u64, replay_dir: &str, tag: &str) -> Js
     // minimise and persist each violation class (at most 6)
     let mut vio_json = Vec::new();
     for (class, (idx, rec, v)) in m.violations.iter().take(12) {
-        let (min_rec, evals) = minimise(rec, class, 30_000);
-        let final_v = check(&min_rec).violation.unwrap_or_else(|| v.clone());
+        let (mut min_rec, evals) = minimise(rec, class, 30_000);
+        let final_v = match check(&min_rec).violation {
+            Some(fv) => fv,
+            None => {
+                // never pair a violation with a record that does not show it
+                min_rec = rec.clone();
+                v.clone()
+            }
+        };
         let path = format!("{}/C08-{}-{}-{}.json", replay_dir, tag, master, idx);
         let file = Json::obj()
             .with("property", Json::s("C08"))
